@@ -19,7 +19,19 @@ OMEGAS = [R(3, 2), R(47, 10), R(23, 7), R(101, 30), R(7, 3), R(53, 11)]
 
 
 def modes(rng, family):
-    """Returns (ops list, description)."""
+    """Returns the list of modes; now and then two modes of different type share a label (they are independent
+    operators: BosonOp("a") and FermionOp("a"))."""
+    ops = _modes(rng, family)
+    if len(ops) >= 2 and rng.random() < 0.2:
+        i = int(rng.integers(len(ops)))
+        others = [j for j in range(len(ops)) if type(ops[j]) is not type(ops[i])]
+        if others:
+            j = others[int(rng.integers(len(others)))]
+            ops[j] = type(ops[j])(ops[i].name)
+    return ops
+
+
+def _modes(rng, family):
     from pymablock.number_ordered_form import LadderOp
 
     a, b = BosonOp("a"), BosonOp("b")
